@@ -13,6 +13,7 @@ import c12 as _c12
 HEAD = '''#![allow(unused, dead_code, clippy::all)]
 use generic_array::typenum::*;
 use generic_array::{arr, box_arr, ArrayLength, ConstArrayLength, GenericArray as GA};
+use generic_array::functional::FunctionalSequence;
 use std::cell::RefCell;
 type N<const K: usize> = ConstArrayLength<K>;
 thread_local! { static LOG: RefCell<Vec<u32>> = const { RefCell::new(Vec::new()) }; static DROPS: RefCell<Vec<u32>> = const { RefCell::new(Vec::new()) }; }
@@ -26,6 +27,21 @@ fn take_drops() -> Vec<u32> { DROPS.with(|l| core::mem::take(&mut *l.borrow_mut(
 fn seq(n: usize) -> Vec<u32> { (0..n as u32).collect() }
 macro_rules! ck { ($c:expr, $($t:tt)*) => { if !($c) { return Err(format!($($t)*)); } } }
 '''
+
+
+RUST_KEYWORDS = set("""as break const continue crate else enum extern false fn for if impl in let loop match mod move mut pub ref return self Self static struct super
+trait true type unsafe use where while async await dyn abstract become box do final macro override priv typeof unsized virtual yield try union macro_rules""".split())
+
+
+def hygiene_idents():
+    """identifiers that occur in the crate's macro source (comments and strings removed)"""
+    src = open(os.path.join(REPO, 'src', 'arr.rs')).read()
+    src = re.sub(r'//[^\n]*', '', src)
+    src = re.sub(r'"(\\.|[^"\\])*"', '', src)
+    ids = sorted(set(re.findall(r'(?<![$A-Za-z0-9_])([A-Za-z_][A-Za-z0-9_]*)', src)))
+    # a constant cannot be called like a primitive type or like the names the test body itself uses
+    skip = RUST_KEYWORDS | {'usize', 'u8', 'bool', 'a', 'b', 'c', 'l', 'b2', 'bl', 'arr', 'box_arr', 'ck', 'Ok', 'Err', 'String', 'format', 'U4', 'GA', '_', 'e', 'x', 'n', 'N', 'T'}
+    return [i for i in ids if not i.startswith('__') and i not in skip and len(i) > 1]
 
 
 def counts(tier):
@@ -132,7 +148,130 @@ def build_cases(tier):
     ck!(nested[2][1] == 6, "nested arr!");
     Ok(())'''
     cases.append(('misc', body, ''))
+
+    # ---- elements carrying attributes: the compiler removes `#[cfg]`-disabled elements from a native array literal; the
+    # macros' list forms must denote the same array (and box_arr! an equal one)
+    for nm, els in [('first', '#[cfg(any())] lg(0), lg(1), lg(2)'), ('middle', 'lg(0), #[cfg(any())] lg(1), lg(2)'), ('last', 'lg(0), lg(1), #[cfg(any())] lg(2)'),
+                    ('all', '#[cfg(any())] lg(0), #[cfg(any())] lg(1)'), ('enabled', 'lg(0), #[cfg(all())] lg(1), #[allow(unused_parens)] (lg(2))'), ('two', '#[cfg(any())] lg(0), lg(1), #[cfg(any())] lg(2), lg(3),')]:
+        body = f"""take_log(); let nat: &[u32] = &[{els}]; let nlog = take_log();
+    let a: GA<u32, _> = arr![{els}]; let alog = take_log();
+    ck!(a.as_slice() == &nat[..] && alog == nlog, "arr! with attribute-carrying elements gives {{:?}} (evaluated {{:?}}), the native literal gives {{:?}} (evaluated {{:?}})", a.as_slice(), alog, nat, nlog);
+    let b: Box<GA<u32, _>> = box_arr![{els}]; let blog = take_log();
+    ck!(b.as_slice() == &nat[..] && blog == nlog, "box_arr! with attribute-carrying elements gives {{:?}} (evaluated {{:?}}), the native literal gives {{:?}} (evaluated {{:?}})", b.as_slice(), blog, nat, nlog);
+    Ok(())"""
+        cases.append((f'cfg_elements_{nm}', body, ''))
+    # ---- temporaries created by element expressions live as long as they do in a native array literal (until the end of
+    # the enclosing statement); compared with the native literal, no expected order written by hand
+    items = """struct Guard(u32);
+impl Guard { fn v(&self) -> u32 { LOG.with(|l| l.borrow_mut().push(self.0)); self.0 } }
+impl Drop for Guard { fn drop(&mut self) { LOG.with(|l| l.borrow_mut().push(1000 + self.0)); } }
+fn g(i: u32) -> Guard { LOG.with(|l| l.borrow_mut().push(100 + i)); Guard(i) }
+fn used<T: AsRef<[u32]>>(a: T) -> usize { LOG.with(|l| l.borrow_mut().push(500)); a.as_ref().len() }
+"""
+    body = """take_log(); let _ = used([g(1).v(), g(2).v(), g(3).v()]); let nat = take_log();
+    let _ = used(arr![g(1).v(), g(2).v(), g(3).v()]); let a = take_log();
+    ck!(a == nat, "temporaries of arr! element expressions: event order {:?}, with the native literal {:?}", a, nat);
+    let _ = used(*box_arr![g(1).v(), g(2).v(), g(3).v()]); let b = take_log();
+    ck!(b == nat, "temporaries of box_arr! element expressions: event order {:?}, with the native literal {:?}", b, nat);
+    let nat = { take_log(); let n = [g(4).v(), g(5).v()].map(|x| { LOG.with(|l| l.borrow_mut().push(600)); x }); take_log() };
+    let a = { let n = arr![g(4).v(), g(5).v()].map(|x| { LOG.with(|l| l.borrow_mut().push(600)); x }); take_log() };
+    ck!(a == nat, "temporaries of arr! elements in a method chain: event order {:?}, with the native literal {:?}", a, nat);
+    Ok(())"""
+    cases.append(('temporaries', body, items))
+    # ---- the element type may come from the expected type only; elements may borrow from their own temporaries within the statement
+    body = """let d: GA<&dyn core::fmt::Debug, U2> = arr![&1u8, &"x"]; ck!(format!("{:?}", d[1]) == "\\"x\\"", "arr! with elements coerced to a trait object");
+    let o: GA<Option<u8>, U2> = arr![None, None]; ck!(o[0].is_none(), "arr! with the element type known from the expected type only");
+    let ob: Box<GA<Option<u8>, U2>> = box_arr![None, None]; ck!(ob[1].is_none(), "box_arr! with the element type known from the expected type only");
+    let db: Box<GA<&dyn core::fmt::Debug, U2>> = box_arr![&1u8, &"x"]; ck!(format!("{:?}", db[0]) == "1", "box_arr! with elements coerced to a trait object");
+    let n = arr![&String::from("ab")[..], "c"].map(|s| s.len()); ck!(n == arr![2usize, 1], "arr! with an element borrowing from its own temporary");
+    let nb = box_arr![&String::from("ab")[..], "c"].iter().map(|s| s.len()).sum::<usize>(); ck!(nb == 3, "box_arr! with an element borrowing from its own temporary");
+    let f = arr![|x: u8| x + 1]; ck!((f[0])(1) == 2, "arr! of a closure");
+    let fb = box_arr![|x: u8| x + 2]; ck!((fb[0])(1) == 3, "box_arr! of a closure");
+    let big = box_arr![[7u8; 1 << 16], [8u8; 1 << 16]]; ck!(big[1][65535] == 8, "box_arr! of large elements");
+    Ok(())"""
+    cases.append(('inference', body, ''))
+    # ---- hygiene: a caller's item whose name happens to be used inside the macros keeps its meaning in the element expression.
+    # The names are read from the crate's current src/arr.rs; names starting with a double underscore are the macros' reserved namespace.
+    for ident in hygiene_idents():
+        body = f"""#[allow(non_upper_case_globals, non_snake_case)] {{
+    const {ident}: usize = 9;
+    let a = arr![{ident}; U4]; ck!(a.as_slice() == [9usize; 4], "arr![{ident}; U4] with a caller constant named {ident} = 9 gives {{:?}}", a.as_slice());
+    let c = arr![{ident}; 3]; ck!(c.as_slice() == [9usize; 3], "arr![{ident}; 3] with a caller constant named {ident} = 9 gives {{:?}}", c.as_slice());
+    let l = arr![{ident}, {ident} + 1]; ck!(l.as_slice() == [9usize, 10], "arr![{ident}, {ident} + 1] with a caller constant named {ident} = 9 gives {{:?}}", l.as_slice());
+    let b = box_arr![{ident}; U4]; ck!(b.as_slice() == [9usize; 4], "box_arr![{ident}; U4] with a caller constant named {ident} = 9 gives {{:?}}", b.as_slice());
+    let b2 = box_arr![{ident}; 3]; ck!(b2.as_slice() == [9usize; 3], "box_arr![{ident}; 3] with a caller constant named {ident} = 9 gives {{:?}}", b2.as_slice());
+    let bl = box_arr![{ident}, {ident} + 1]; ck!(bl.as_slice() == [9usize, 10], "box_arr![{ident}, {ident} + 1] with a caller constant named {ident} = 9 gives {{:?}}", bl.as_slice());
+    }}
+    Ok(())"""
+        cases.append((f'hygiene_{ident}', body, ''))
     return cases
+
+
+def reject_programs():
+    """invocations that must NOT compile: the macros may not lend their own `unsafe` to the caller's element expressions
+    (a native array literal rejects a call of an unsafe function outside an unsafe block with E0133)"""
+    progs = []
+    forms = [('list', 'arr![danger(), 1]'), ('list1', 'arr![danger()]'), ('repeat_type', 'arr![danger(); U3]'), ('repeat_const', 'arr![danger(); 3]'),
+             ('box_list', 'box_arr![danger(), 1]'), ('box_repeat_type', 'box_arr![danger(); U3]'), ('box_repeat_const', 'box_arr![danger(); 3]'),
+             ('deref', 'arr![*RAW; U2]'), ('deref_list', 'arr![*RAW, 0]'), ('box_deref', 'box_arr![*RAW; 2]'),
+             ('const_item', 'const C: GA<u8, U2> = arr![danger(); U2];'), ('const_list', 'const C: GA<u8, U2> = arr![danger(), 1];')]
+    for name, inv in forms:
+        code = inv if inv.startswith('const ') else f'fn p() {{ let _ = {inv}; }}'
+        progs.append((name, code, 'E0133'))
+    return progs
+
+
+def write_reject_crate(dirp, progs):
+    os.makedirs(os.path.join(dirp, 'src'), exist_ok=True)
+    with open(os.path.join(dirp, 'Cargo.toml'), 'w') as f:
+        f.write(f'[package]\nname = "c20_rej"\nversion = "0.0.0"\nedition = "2021"\n\n[dependencies]\ngeneric-array = {{ path = "{REPO}", features = ["alloc"] }}\n\n[workspace]\n')
+    shutil.copy(os.path.join(REPO, 'Cargo.lock'), os.path.join(dirp, 'Cargo.lock'))
+    lines = ['#![allow(unused, dead_code)]', 'use generic_array::typenum::*;', 'use generic_array::{arr, box_arr, GenericArray as GA};',
+             'const unsafe fn danger() -> u8 { 7 }', 'const RAW: *const u8 = &5u8;']
+    ranges = []
+    for name, code, want in progs:
+        lines.append(f'mod r_{name} {{ use super::*; {code} }}')
+        ranges.append((len(lines), name, want, code))
+    lines.append('fn main() {}')
+    open(os.path.join(dirp, 'src', 'main.rs'), 'w').write('\n'.join(lines) + '\n')
+    return ranges
+
+
+def run_rejects(env, target):
+    progs = reject_programs()
+    d = os.path.join(BASE, 'corpus', 'c20_rej')
+    shutil.rmtree(d, ignore_errors=True)
+    ranges = write_reject_crate(d, progs)
+    p = subprocess.run(['cargo', 'check', '--offline', '--message-format=json', '-q'], cwd=d, env=env, stdout=subprocess.PIPE, stderr=subprocess.PIPE, text=True)
+    got = {}
+    other = []
+    for line in p.stdout.splitlines():
+        try:
+            m = json.loads(line)
+        except Exception:
+            continue
+        if m.get('reason') != 'compiler-message' or m['message'].get('level') != 'error' or not m['message'].get('spans'):
+            continue
+        dmsg = m['message']
+        if m.get('target', {}).get('name') != 'c20_rej':
+            raise Machinery('reject corpus c20_rej: a dependency does not compile: ' + dmsg.get('message', '')[:300])
+        code = (dmsg.get('code') or {}).get('code') or 'E????'
+        lns = {(_c12.primary_loc(sp, 'src/main.rs')) for sp in dmsg['spans']} - {None}
+        hit = False
+        for ln, name, want, _ in ranges:
+            if ln in lns:
+                got.setdefault(name, []).append(code)
+                hit = True
+        if not hit:
+            other.append(f'{code}: {dmsg.get("message", "")[:160]}')
+    if other:
+        raise Machinery('reject corpus c20_rej has errors outside its programs: ' + '; '.join(other[:3]))
+    viols = []
+    for ln, name, want, code in ranges:
+        if want not in got.get(name, []):
+            viols.append({'desc': f'C20;must-reject;{name}', 'what': f'`{code}` uses an unsafe operation in an element expression without an unsafe block; a native array literal is rejected with {want}, '
+                          f'this invocation {"compiles" if not got.get(name) else "fails only with " + str(got[name])}: the macro lends its own `unsafe` to the caller\'s expression', 'stable': True})
+    return viols, len(ranges), {n: c for n, c in got.items()}
 
 
 def write_crate(dirp, cases):
@@ -155,8 +294,10 @@ def write_crate(dirp, cases):
     for name, _, _ in cases:
         lines.append(f'        ("{name}", case_{name}),')
     lines.append('    ];')
-    lines.append('    let mut bad = 0; for (n, f) in &cases { match std::panic::catch_unwind(f) { Ok(Ok(())) => {}, Ok(Err(e)) => { bad += 1; println!("FAIL {n}: {e}"); }, Err(_) => { bad += 1; println!("FAIL {n}: panicked"); } } }')
-    lines.append('    println!("RAN {} FAILED {}", cases.len(), bad);')
+    lines.append('    let from: usize = std::env::args().nth(1).and_then(|s| s.parse().ok()).unwrap_or(0);')
+    lines.append('    use std::io::Write;')
+    lines.append('    let mut bad = 0; for (k, (n, f)) in cases.iter().enumerate().skip(from) { println!("START {k} {n}"); std::io::stdout().flush().ok(); match std::panic::catch_unwind(f) { Ok(Ok(())) => {}, Ok(Err(e)) => { bad += 1; println!("FAIL {n}: {e}"); }, Err(_) => { bad += 1; println!("FAIL {n}: panicked"); } } }')
+    lines.append('    println!("RAN {} FAILED {}", cases.len() - from.min(cases.len()), bad);')
     lines.append('}')
     open(os.path.join(dirp, 'src', 'main.rs'), 'w').write('\n'.join(lines) + '\n')
     return ranges
@@ -210,17 +351,32 @@ def run(part, tier):
         p2 = subprocess.run(['cargo', 'build', '--offline', '-q'], cwd=d, env=env, stdout=subprocess.PIPE, stderr=subprocess.PIPE, text=True)
         if p2.returncode != 0:
             raise Machinery('corpus crate c20 checks but does not build:\n' + p2.stderr[-2000:])
-        r = subprocess.run([os.path.join(target, 'debug', 'c20')], capture_output=True, text=True, env=env_base())
-        for line in r.stdout.splitlines():
-            if line.startswith('FAIL '):
-                name = line.split()[1].rstrip(':')
-                viols.append({'desc': f'C20;run;{name}', 'what': line[5:600], 'stable': True})
-            elif line.startswith('RAN '):
-                ran = int(line.split()[1])
-        if ran == 0:
-            raise Machinery(f'c20 binary produced no summary (status {r.returncode}): {r.stderr[-800:]}')
+        start, deaths = 0, 0
+        while True:
+            r = subprocess.run([os.path.join(target, 'debug', 'c20'), str(start)], capture_output=True, text=True, env=env_base())
+            last, done = None, False
+            for line in r.stdout.splitlines():
+                if line.startswith('FAIL '):
+                    name = line.split()[1].rstrip(':')
+                    viols.append({'desc': f'C20;run;{name}', 'what': line[5:600], 'stable': True})
+                elif line.startswith('START '):
+                    last = (int(line.split()[1]), line.split()[2])
+                    ran += 1
+                elif line.startswith('RAN '):
+                    done = True
+            if done:
+                break
+            # the process died inside a case (abort, e.g. from a std precondition check): that case is the violation, go on after it
+            if last is None or deaths > 20:
+                raise Machinery(f'c20 binary produced no summary (status {r.returncode}): {r.stderr[-800:]}')
+            deaths += 1
+            err = ' | '.join(l.strip() for l in r.stderr.splitlines() if 'panicked' in l or 'unsafe precondition' in l or 'SIG' in l or 'overflow' in l or 'abort' in l)[:400]
+            viols.append({'desc': f'C20;run;{last[1]}', 'what': f'the process died inside this case (status {r.returncode}): {err}', 'stable': True})
+            start = last[0] + 1
+    rv, nrej, rcodes = run_rejects(env, target)
+    viols += rv
     samples = [{'case': n, 'body': b[:300]} for n, b, _ in (cases[:1] + cases[7:8] + cases[-3:-1])]
-    result = {'evaluations': len(cases), 'distinct_nontrivial': sum(1 for n, _, _ in cases if not n.endswith('_0') and not n.endswith('_0_trailing')), 'programs': len(cases),
+    result = {'evaluations': len(cases) + nrej, 'must_reject_programs': nrej, 'must_reject_codes': rcodes, 'distinct_nontrivial': sum(1 for n, _, _ in cases if not n.endswith('_0') and not n.endswith('_0_trailing')), 'programs': len(cases),
               'outcomes': {'compiled-and-ran': ran, 'rejected-by-compiler': len(rejected)}, 'samples': samples, 'wall_s': round(time.time() - t0, 2)}
     return {'violations': viols, 'result': result, 'substrates': {'rustc': subprocess.run(['rustc', '--version'], capture_output=True, text=True).stdout.strip()}}
 
